@@ -3,10 +3,15 @@
 EXTENDS TraceKit, TonCrc
 
 \* record: [i, op = "crc", data (bytes), c16, c32le, c32be (bytes as returned by the library)]
+\*         optional: be2 (crc32c with the byte order 'big' given as a string object created at run time)
 Failed(r) ==
-    Clause("crc16_ok",    r.c16   = Crc16(r.data))
-    \cup Clause("crc32c_le_ok", r.c32le = Crc32cLE(r.data))
-    \cup Clause("crc32c_be_ok", r.c32be = Crc32cBE(r.data))
+    LET w == Crc32cWord(r.data)                       \* one pass over the data for both byte orders
+        be == <<w[1] \div 256, w[1] % 256, w[2] \div 256, w[2] % 256>>
+        le == <<w[2] % 256, w[2] \div 256, w[1] % 256, w[1] \div 256>>
+    IN Clause("crc16_ok",    r.c16   = Crc16(r.data))
+       \cup Clause("crc32c_le_ok", r.c32le = le)
+       \cup Clause("crc32c_be_ok", r.c32be = be)
+       \cup (IF Has(r, "be2") THEN Clause("crc32c_be_ok_whatever_string_object_names_the_order", r.be2 = be /\ r.le2 = le) ELSE {})
 
 TInit == KitInit
 TNext == KitNext(Failed)
